@@ -61,7 +61,7 @@ TRIAGE = [
      "that _LazyDatasetGenerator does not expect"),
     (r"test_0793-.*::test_numpyarray_grad_3$", r"iteration over a 0-d array", "env",
      "jax 0.11: jax.jvp returns a 0-d jax Array here and ak.to_list iterates it"),
-    (r"test_0793-.*::test_recordarray_[456]$", r"\d\.\d+ != ", "env",
+    (r"test_0793-.*::test_recordarray_[456]$", r"At index 0 diff", "env",
      "jax 0.11 computes in float32 unless jax_enable_x64 is set; the expected values are float64"),
     (r"test_0813-.*::test$", r"\[0, 0, 0\] != \[True, True, True\]", "env",
      "NumPy 2: casting the string '0' to bool is True (non-empty), NumPy 1 parsed it as the integer 0 -> False "
